@@ -73,6 +73,24 @@ CLAIMED = {
             "exceptions), not proved.",
             "Lean 4 proof (run-loop shape, error latch) + differential correspondence with fault injection + watchdog",
             "DESIGN.md §4 C17"),
+    "C11": ("Proved in Lean: the individual-schedule floor (offered power = min(clamp(schedule+add), headroom) >= "
+            "min(clamp(schedule), headroom) because the bisection for add only returns points of its bracket [0, station "
+            "max] and clamp_power is monotone) and the termination bound of the bisection loop. The floor is tied to the "
+            "code by an oracle on real schedule(individual) runs (station power >= what the real battery accepts from the "
+            "floor offer, headroom taken at allocation time). Window/price following of peak_load_window, flex_window and "
+            "balanced_market and 'balanced_market never pays more than greedy' are decided on real runs of dedicated "
+            "scenarios (encouraged steps >= 1.3 x needed); no model of these strategies exists (partial).",
+            "Lean 4 proof (floor formula, bisection bracket/termination) + oracles on real runs incl. paired market/greedy runs",
+            "DESIGN.md §4 C11"),
+    "C20": ("All sentences are Lean theorems about the executable model of assign_vehicle_id (repaired code): the "
+            "in-progress queue stays sorted, no two trips of a vehicle overlap, consecutive trips are separated by more than "
+            "the minimum standing time, a vehicle serves only its own type, a new vehicle is created only when none of the "
+            "type is idle and the idle vehicle chosen is the one idle longest — by induction over the sorted trip list with "
+            "a loop invariant, for every table and any type names. The model runs on exact integers/rationals against the "
+            "real function on exhaustive small tables (<= 5 trips, 6-slot lattice) and random tables up to 40 trips with "
+            "nested type names; an independent oracle states the four sentences on the implementation's output.",
+            "Lean 4 proof (loop invariant, induction over trips) + exact differential correspondence, bounded-exhaustive + random",
+            "DESIGN.md §4 C20"),
 }
 
 PENDING_REASON = ("not claimed yet: model, theorems and correspondence for this property are still being built "
